@@ -416,6 +416,40 @@ func applyCustomerRates(doc billable) {
 	}
 }
 
+// clearOwnTaxCountry removes the country from the taxes of every row that name
+// the document's own tax country, just as the calculation does later on, so
+// that the normalizers see the same combo the first time a document is
+// calculated as in any later calculation.
+func clearOwnTaxCountry(doc billable) {
+	r := doc.RegimeDef()
+	if r == nil {
+		return
+	}
+	country := r.GetCountry()
+	clr := func(ts tax.Set) {
+		for _, t := range ts {
+			if t != nil && t.Country == country {
+				t.Country = ""
+			}
+		}
+	}
+	for _, l := range doc.getLines() {
+		if l != nil {
+			clr(l.Taxes)
+		}
+	}
+	for _, d := range doc.getDiscounts() {
+		if d != nil {
+			clr(d.Taxes)
+		}
+	}
+	for _, c := range doc.getCharges() {
+		if c != nil {
+			clr(c.Taxes)
+		}
+	}
+}
+
 func addCountryToTaxes(ts tax.Set, country l10n.TaxCountryCode) {
 	for _, t := range ts {
 		if t != nil {
